@@ -184,3 +184,45 @@ const prelude = `(set-option :produce-models true)
 (declare-fun errClean (Int) Bool)
 (declare-fun errMsg (Int) Str)
 `
+
+func litInt(t string) (int64, bool) {
+	if len(t) == 0 || len(t) > 18 {
+		return 0, false
+	}
+	var n int64
+	for _, c := range t {
+		if c < '0' || c > '9' {
+			return 0, false
+		}
+		n = n*10 + int64(c-'0')
+	}
+	return n, true
+}
+
+// addT / subT build sums with literal folding so that statically known lengths stay literals.
+func addT(a, b string) string {
+	if a == "0" {
+		return b
+	}
+	if b == "0" {
+		return a
+	}
+	if x, ok := litInt(a); ok {
+		if y, ok := litInt(b); ok {
+			return intLit(x + y)
+		}
+	}
+	return app("+", a, b)
+}
+
+func subT(a, b string) string {
+	if b == "0" {
+		return a
+	}
+	if x, ok := litInt(a); ok {
+		if y, ok := litInt(b); ok {
+			return intLit(x - y)
+		}
+	}
+	return app("-", a, b)
+}
